@@ -145,6 +145,14 @@ class Passes(Slot[T]):                       # hands its parameter on
     pass
 class Fixed(Slot[int]):                      # not generic itself
     pass
+class Conf:
+    verbose: int = 0
+    label: str = ""
+    items_: ClassVar[list[int]] = []
+class StrictConf(Conf):                      # re-declares an attribute with a narrower type, inherits the others
+    verbose: bool = True
+class DeepConf(StrictConf):
+    label: MyStr = MyStr()
 slot_int: Slot[int]
 slot_str: Slot[str]
 lab_int: Labelled[int]
@@ -266,6 +274,9 @@ OPERANDS = [
     # attributes declared with a class type variable, read through instances of generic subclasses
     "slot_int.item", "slot_str.item", "slot_int.both", "lab_int.item", "lab_int.payload", "inv_int_str.key", "inv_int_str.value", "pass_int.item", "fixed_.item",
     "Slot[int]().item", "box_int.get", "slot_int.item + 1",
+    # attributes read through the class object itself, declared in the class, inherited, and re-declared narrower in a subclass
+    "Conf.verbose", "StrictConf.verbose", "DeepConf.verbose", "StrictConf().verbose", "DeepConf().verbose", "Conf.label", "StrictConf.label", "DeepConf.label", "DeepConf().label",
+    "StrictConf.items_", "DeepConf.items_", "type(c).cls_var",
     # two branches / two operands of the same class that differ in their type arguments, or of related classes (mypy: a union or a join)
     "v_list if v_bool else v_lstr", "v_lstr if v_bool else v_list", "v_list if v_bool else v_list", "v_dict if v_bool else v_dint", "v_set if v_bool else v_sstr",
     "v_list or v_lstr", "v_list and v_lstr", "v_lstr or v_list", "v_int if v_bool else v_bool", "v_mylist if v_bool else v_list", "v_list if v_bool else v_mylist",
